@@ -1,13 +1,27 @@
 (** C06 — property theorems (statements only; every proof is [exact] of a lemma of Proofs.v).
     Dereplication conserves counts and merges exactly the identical records.
 
-    [uniq h nchunks cats sts na nosingleton l] is the model of obichunk.IUniqueSequence (Model.v):
+    [uniq h nchunks cats ds sts na nosingleton l] is the model of obichunk.IUniqueSequence (Model.v):
     [h] is the hash of HashClassifier — a Section variable there, universally quantified here, so every
     theorem holds for ANY hash function and any number of chunks (CRC32 is not trusted).
-    [key cats na r] = (nucleotides, values of the category attributes, NA when absent);
+    [ds] maps a statistics slot ("key" or "key:weight" after -m) to (key, weight attribute); [dflt] = no weights.
+    Attribute values are TYPED ([value]: Go dynamic type tag, fmt.Sprint form, exact value, StatsPlusOne key,
+    integer reading).  [key cats na r] = (nucleotides, printed values of the category attributes, NA when absent);
     [same_key cats na x r] its boolean equality; [zsum F l] = sum of F over l;
-    [smap na r k] = what record r contributes to merged_<k>: its own merged_<k> map when it is already
-    merged, else {value of k (NA when absent) |-> count}. *)
+    [smap ds na r k] = what record r contributes to merged_<k>: its own merged_<k> map when it is already
+    merged, else {StatsPlusOne value of the key (NA when absent) |-> weight}, weight = [wgt ds r k] = the count,
+    or the integer value of the weight attribute (0 when absent / not a number).
+
+    COUNTS: [pos_counts l] = every record has a count >= 1 (the quantifier of the property).  The model carries
+    BioSequence.SetCount ("a count < 1 becomes 1") on every merge step; with a count < 1 in the input the count of a class
+    depends on the merge order (C06_count_is_sum_nonpositive_refuted), so the accounting theorems state this hypothesis;
+    C06_output_counts_positive holds for every input.
+
+    TYPING HYPOTHESIS [typed cats l]: for every category attribute, two records of the data set that print the same
+    value hold the same typed value.  It is needed exactly where the statement identifies the class of an output
+    record by the key that record shows; without it the statement is false of the code (known finding
+    mixed-type-category-dropped): C06_one_per_key_refuted, C06_keys_exact_refuted.  The accounting itself
+    (C06_output_is_merged_class, C06_total_conserved, C06_weight_conserved) needs no typing hypothesis. *)
 From Coq Require Import List NArith ZArith Bool Permutation.
 From OBI.C06 Require Import Model Proofs.
 Import ListNotations.
@@ -18,38 +32,92 @@ Theorem C06_classes_exact : forall cats na h nchunks l g,
   In g (batches h nchunks cats na l) -> exists x, In x l /\ g = filter (same_key cats na x) l.
 Proof. exact batches_char. Qed.
 
+(** [untyped] every output record is the merge of one whole class of the input: its count is the sum of the counts
+    of the class, every requested merged_<k> map gives per value the summed contribution (weight, or own map) *)
+Theorem C06_output_is_merged_class : forall cats ds sts na h nchunks nosingleton l o, pos_counts l ->
+  In o (uniq h nchunks cats ds sts na nosingleton l) ->
+  exists x, In x l /\ useq o = useq x /\ ucount o = zsum ucount (filter (same_key cats na x) l) /\
+    forall k, In k sts -> exists m, lookup k (umerged o) = Some m /\
+      forall v, stat_get v m = zsum (fun r => stat_get v (smap ds na r k)) (filter (same_key cats na x) l).
+Proof. exact uniq_output_is_class. Qed.
+
 (** one output record per distinct key: no key twice (with or without --no-singleton) ... *)
-Theorem C06_one_per_key : forall cats sts na h nchunks nosingleton l,
-  NoDup (map (key cats na) (uniq h nchunks cats sts na nosingleton l)).
+Theorem C06_one_per_key : forall cats ds sts na h nchunks nosingleton l, typed cats l ->
+  NoDup (map (key cats na) (uniq h nchunks cats ds sts na nosingleton l)).
 Proof. exact uniq_keys_nodup. Qed.
 
+(** ... which is false of the code without the typing hypothesis (sample=1, sample="1", no sample: two output
+    records show the key (a, NA)) — known finding mixed-type-category-dropped *)
+Theorem C06_one_per_key_refuted : exists cats ds sts na h n l,
+  ~ NoDup (map (key cats na) (uniq h n cats ds sts na false l)).
+Proof. exact one_per_key_refuted. Qed.
+
 (** ... and the output keys are exactly the input keys *)
-Theorem C06_keys_exact : forall cats sts na h nchunks l k,
-  In k (map (key cats na) (uniq h nchunks cats sts na false l)) <-> In k (map (key cats na) l).
+Theorem C06_keys_exact : forall cats ds sts na h nchunks l k, typed cats l ->
+  (In k (map (key cats na) (uniq h nchunks cats ds sts na false l)) <-> In k (map (key cats na) l)).
 Proof. exact uniq_keys_exact. Qed.
 
-(** the count of an output record is the sum of the counts of the input records with its key *)
-Theorem C06_count_is_sum : forall cats sts na h nchunks nosingleton l o,
-  In o (uniq h nchunks cats sts na nosingleton l) ->
+Theorem C06_keys_exact_refuted : exists cats ds sts na h n l k,
+  In k (map (key cats na) (uniq h n cats ds sts na false l)) /\ ~ In k (map (key cats na) l).
+Proof. exact keys_exact_refuted. Qed.
+
+(** the count of an output record is the sum of the counts of the input records with its key
+    (whatever the weights of the statistics) *)
+Theorem C06_count_is_sum : forall cats ds sts na h nchunks nosingleton l o, pos_counts l -> typed cats l ->
+  In o (uniq h nchunks cats ds sts na nosingleton l) ->
   ucount o = zsum ucount (filter (same_key cats na o) l).
 Proof. exact uniq_count. Qed.
 
-(** every requested merged_<k> map gives, per value, the summed weight of the records of the class
-    (already merged inputs contribute their own map) *)
-Theorem C06_merged_maps : forall cats sts na h nchunks nosingleton l o k,
-  In o (uniq h nchunks cats sts na nosingleton l) -> In k sts ->
+(** every requested merged_<k> map gives, per value, the summed contribution of the records of the class
+    (already merged inputs contribute their own map, the others their weight) *)
+Theorem C06_merged_maps : forall cats ds sts na h nchunks nosingleton l o k, pos_counts l -> typed cats l ->
+  In o (uniq h nchunks cats ds sts na nosingleton l) -> In k sts ->
   exists m, lookup k (umerged o) = Some m /\
-            forall v, stat_get v m = zsum (fun r => stat_get v (smap na r k)) (filter (same_key cats na o) l).
+            forall v, stat_get v m = zsum (fun r => stat_get v (smap ds na r k)) (filter (same_key cats na o) l).
 Proof. exact uniq_merged. Qed.
 
+(** -m key:weight on raw records: per value of [key] the summed WEIGHT of the records of the class *)
+Theorem C06_merged_maps_weighted : forall cats ds sts na h n nosingleton l o k, pos_counts l -> typed cats l ->
+  In o (uniq h n cats ds sts na nosingleton l) -> In k sts ->
+  (forall r, In r l -> lookup k (umerged r) = None) ->
+  exists m, lookup k (umerged o) = Some m /\
+    forall v, stat_get v m =
+              zsum (fun r => if v =? sval na r (fst (ds k)) then wgt ds r k else 0%Z) (filter (same_key cats na o) l).
+Proof. exact uniq_merged_raw. Qed.
+
 (** the total count is conserved *)
-Theorem C06_total_conserved : forall cats sts na h nchunks l,
-  zsum ucount (uniq h nchunks cats sts na false l) = zsum ucount l.
+Theorem C06_total_conserved : forall cats ds sts na h nchunks l, pos_counts l ->
+  zsum ucount (uniq h nchunks cats ds sts na false l) = zsum ucount l.
 Proof. exact uniq_total_conserved. Qed.
 
+(** the total WEIGHT of every requested slot is conserved: over the data set ... *)
+Theorem C06_weight_conserved : forall cats ds sts na h n l k, In k sts -> pos_counts l ->
+  zsum (mtotal k) (uniq h n cats ds sts na false l) = zsum (wcontrib ds na k) l.
+Proof. exact uniq_weight_conserved. Qed.
+
+(** ... and inside every class (with or without --no-singleton); [wcontrib] of a raw record is its weight *)
+Theorem C06_class_weight_conserved : forall cats ds sts na h n nosingleton l k, In k sts -> pos_counts l ->
+  forall o, In o (uniq h n cats ds sts na nosingleton l) ->
+  exists x m, In x l /\ useq o = useq x /\ lookup k (umerged o) = Some m /\
+              zsum snd m = zsum (wcontrib ds na k) (filter (same_key cats na x) l).
+Proof. exact uniq_class_wtotal. Qed.
+
+Theorem C06_weight_of_raw_record : forall ds na k r, lookup k (umerged r) = None -> wcontrib ds na k r = wgt ds r k.
+Proof. exact wcontrib_raw. Qed.
+
+(** counts < 1 (outside the property): the count of a class then depends on the merge order and is not the sum *)
+Theorem C06_count_is_sum_nonpositive_refuted : exists l l' o o',
+  Permutation l l' /\ In o (uniq sum_hash 1 [] dflt [] 9 false l) /\ In o' (uniq sum_hash 1 [] dflt [] 9 false l') /\
+  useq o = useq o' /\ ucount o <> ucount o' /\ ucount o <> zsum ucount l.
+Proof. exact count_is_sum_nonpositive_refuted. Qed.
+
+(** every output record has a count >= 1, whatever the input (SetCount) *)
+Theorem C06_output_counts_positive : forall na cats ds sts h n nosingleton l, pos_counts (uniq h n cats ds sts na nosingleton l).
+Proof. exact uniq_out_pos. Qed.
+
 (** --no-singleton: the total decreases by exactly the number of dropped classes, ... *)
-Theorem C06_total_conserved_nosingleton : forall cats sts na h nchunks l,
-  (zsum ucount (uniq h nchunks cats sts na true l) +
+Theorem C06_total_conserved_nosingleton : forall cats ds sts na h nchunks l, pos_counts l ->
+  (zsum ucount (uniq h nchunks cats ds sts na true l) +
    Z.of_nat (length (filter (fun g => negb (keep true g)) (batches h nchunks cats na l))))%Z = zsum ucount l.
 Proof. exact uniq_total_nosingleton. Qed.
 
@@ -60,9 +128,9 @@ Theorem C06_nosingleton_drops_whole_classes : forall cats na h nchunks l g,
 Proof. exact dropped_char. Qed.
 
 (** ... the keys that remain are exactly those whose class is not such a singleton, ... *)
-Theorem C06_nosingleton_keys : forall cats sts na h nchunks l k,
-  In k (map (key cats na) (uniq h nchunks cats sts na true l)) <->
-  exists x, In x l /\ key cats na x = k /\ singleton_one cats na x l = false.
+Theorem C06_nosingleton_keys : forall cats ds sts na h nchunks l k, typed cats l ->
+  (In k (map (key cats na) (uniq h nchunks cats ds sts na true l)) <->
+   exists x, In x l /\ key cats na x = k /\ singleton_one cats na x l = false).
 Proof. exact uniq_nosingleton_keys. Qed.
 
 (** ... and with counts >= 1 such a singleton is exactly a class of total count 1 *)
@@ -71,40 +139,64 @@ Theorem C06_singleton_is_total_one : forall cats na l x,
   (singleton_one cats na x l = true <-> zsum ucount (filter (same_key cats na x) l) = 1%Z).
 Proof. exact singleton_one_total. Qed.
 
-(** an annotation survives iff every record of the class carries it with the same value *)
-Theorem C06_surviving_annotations : forall cats sts na h nchunks nosingleton l o k v,
-  (forall r, In r l -> wf r) -> In o (uniq h nchunks cats sts na nosingleton l) ->
+(** an annotation survives iff every record of the class carries it with the same TYPED value *)
+Theorem C06_surviving_annotations : forall cats ds sts na h nchunks nosingleton l o k v, typed cats l ->
+  (forall r, In r l -> wf r) -> In o (uniq h nchunks cats ds sts na nosingleton l) ->
   (In (k, v) (uann o) <-> forall r, In r (filter (same_key cats na o) l) -> lookup k (uann r) = Some v).
 Proof. exact uniq_ann. Qed.
 
 (** the set of output records (projection: sequence, category values, count, requested merged maps,
     surviving annotations; NOT the id inherited from the first member) does not depend on the arrival
-    order, on the hash function, nor on the number of chunks; workers and memory/disk mode only change
-    the arrival order.  With C06_one_per_key on both sides this is a bijection between the two outputs. *)
-Theorem C06_order_hash_chunks_independent : forall cats sts na h n h' n' nosingleton l l',
-  Permutation l l' -> (forall r, In r l -> wf r) ->
-  forall o, In o (uniq h n cats sts na nosingleton l) ->
-  exists o', In o' (uniq h' n' cats sts na nosingleton l') /\ same_proj cats sts na o o'.
+    order, on the hash function, nor on the number of chunks; workers only change the arrival order.
+    With C06_one_per_key on both sides this is a bijection between the two outputs. *)
+Theorem C06_order_hash_chunks_independent : forall cats ds sts na h n h' n' nosingleton l l',
+  Permutation l l' -> pos_counts l -> typed cats l -> (forall r, In r l -> wf r) ->
+  forall o, In o (uniq h n cats ds sts na nosingleton l) ->
+  exists o', In o' (uniq h' n' cats ds sts na nosingleton l') /\ same_proj cats sts na o o'.
 Proof. exact uniq_independent. Qed.
 
-Theorem C06_order_independent : forall cats sts na h n nosingleton l l',
-  Permutation l l' -> (forall r, In r l -> wf r) ->
-  forall o, In o (uniq h n cats sts na nosingleton l) ->
-  exists o', In o' (uniq h n cats sts na nosingleton l') /\ same_proj cats sts na o o'.
+Theorem C06_order_independent : forall cats ds sts na h n nosingleton l l',
+  Permutation l l' -> pos_counts l -> typed cats l -> (forall r, In r l -> wf r) ->
+  forall o, In o (uniq h n cats ds sts na nosingleton l) ->
+  exists o', In o' (uniq h n cats ds sts na nosingleton l') /\ same_proj cats sts na o o'.
 Proof. exact uniq_order_independent. Qed.
 
-(** when the already merged inputs are consistent (their map adds up to their count), the weights of every
-    requested merged_<k> map of the output add up to the count of the record *)
-Theorem C06_map_total_is_count : forall cats sts na h n nosingleton l k,
-  In k sts -> (forall r, In r l -> consistent k r) ->
-  forall o, In o (uniq h n cats sts na nosingleton l) ->
+(** in-memory mode vs on-disk mode.  [uniq_disk] writes every hash chunk to a file, reads it back ([rt] = one
+    record through the FASTA/FASTQ + JSON-header writer and the reader) and processes the files in directory order
+    ([ord]).  GIVEN that the write/read round trip returns the modelled fields of every record of the data set
+    unchanged — the statement of C02_fasta_roundtrip / C02_fastq_roundtrip projected on (sequence, count, typed
+    annotations, merged maps); it is a hypothesis here, listed in TRUSTED, and re-checked on every on-disk case of
+    every run (each chunk file as re-read by the implementation against what was written) — the two modes produce
+    the same multiset of output records.  No typing hypothesis. *)
+Section DiskMode.
+  Variable rt : urec -> urec.
+  Variable ord : list (list urec) -> list (list urec).
+  Variable l : list urec.
+  Hypothesis C02_fasta_fastq_roundtrip_projected : forall r, In r l -> rt r = r.
+  Hypothesis directory_order_is_a_rearrangement : forall gs, Permutation (ord gs) gs.
+
+  Theorem C06_disk_equals_memory : forall h n cats ds sts na nosingleton,
+    Permutation (uniq_disk h n cats ds sts na nosingleton rt ord l) (uniq h n cats ds sts na nosingleton l).
+  Proof.
+    exact (fun h n cats ds sts na ns =>
+             disk_equals_memory h n cats ds sts na ns rt ord l
+                                C02_fasta_fastq_roundtrip_projected directory_order_is_a_rearrangement).
+  Qed.
+End DiskMode.
+
+(** without weight attribute, when the already merged inputs are consistent (their map adds up to their count),
+    the weights of the merged_<k> map of the output add up to the count of the record *)
+Theorem C06_map_total_is_count : forall cats ds sts na h n nosingleton l k,
+  In k sts -> snd (ds k) = None -> pos_counts l -> (forall r, In r l -> consistent k r) ->
+  forall o, In o (uniq h n cats ds sts na nosingleton l) ->
   exists m, lookup k (umerged o) = Some m /\ zsum snd m = ucount o.
 Proof. exact uniq_map_total. Qed.
 
-(** counts >= 1 and weights >= 1 on the input give counts >= 1 and weights >= 1 on the output *)
-Theorem C06_weights_positive : forall cats sts na h n nosingleton l,
+(** counts >= 1 and weights >= 1 on the input give counts >= 1 and weights >= 1 on the output (no weight attribute:
+    a weight attribute may legitimately be 0 or absent) *)
+Theorem C06_weights_positive : forall cats ds sts na h n nosingleton l, unweighted ds sts ->
   (forall r, In r l -> pos_rec r) ->
-  forall o, In o (uniq h n cats sts na nosingleton l) -> pos_rec o.
+  forall o, In o (uniq h n cats ds sts na nosingleton l) -> pos_rec o.
 Proof. exact uniq_pos. Qed.
 
 (** obiuniq -m k | obidemerge -d k | obiuniq -m k = obiuniq -m k : every record of the second dereplication
@@ -112,42 +204,58 @@ Proof. exact uniq_pos. Qed.
     total of the map — the count itself by C06_map_total_is_count), for any hash / chunk count on both passes ... *)
 Theorem C06_demerge_inverse : forall na k h n h' n' l,
   (forall r, In r l -> pos_rec r) ->
-  forall o2, In o2 (uniq h' n' [] [k] na false (demerge k (uniq h n [] [k] na false l))) ->
-  exists o1 m1 m2, In o1 (uniq h n [] [k] na false l) /\ useq o2 = useq o1 /\
+  forall o2, In o2 (uniq h' n' [] dflt [k] na false (demerge k (uniq h n [] dflt [k] na false l))) ->
+  exists o1 m1 m2, In o1 (uniq h n [] dflt [k] na false l) /\ useq o2 = useq o1 /\
     lookup k (umerged o1) = Some m1 /\ lookup k (umerged o2) = Some m2 /\
     (forall v, stat_get v m2 = stat_get v m1) /\ ucount o2 = zsum snd m1.
 Proof. exact demerge_inverse_pos. Qed.
 
 (** ... and no record is lost on the way (sequences are unique in both outputs by C06_one_per_key) *)
 Theorem C06_demerge_inverse_onto : forall na k h n h' n' l o1 m1,
-  In o1 (uniq h n [] [k] na false l) -> lookup k (umerged o1) = Some m1 -> m1 <> [] ->
-  exists o2, In o2 (uniq h' n' [] [k] na false (demerge k (uniq h n [] [k] na false l))) /\ useq o2 = useq o1.
+  In o1 (uniq h n [] dflt [k] na false l) -> lookup k (umerged o1) = Some m1 -> m1 <> [] ->
+  exists o2, In o2 (uniq h' n' [] dflt [k] na false (demerge k (uniq h n [] dflt [k] na false l))) /\ useq o2 = useq o1.
 Proof. exact demerge_inverse_onto. Qed.
 
-(** non-vacuity: a multiset with duplicates, an already merged record and a singleton meets the
-    hypotheses, and the model really merges it (4 records, 3 keys, 2 left with --no-singleton) *)
+(** non-vacuity: a multiset with duplicates, an already merged record, a weighted statistic and a singleton meets the
+    hypotheses (typed, wf, counts >= 1), and the model really merges it (4 records, 3 keys, 2 left with
+    --no-singleton; total weight 5 + 0 + 2 conserved) *)
 Example C06_nonvacuous :
-  let l := [mkrec [97; 99] 1 [(1, 5)] []; mkrec [97; 99] 3 [(1, 6)] [(1, [(5, 2%Z); (6, 1%Z)])];
-            mkrec [103] 1 [] []; mkrec [97; 99] 2 [(1, 5); (2, 7)] []] in
-  (forall r, In r l -> wf r) /\ (forall r, In r l -> (1 <= ucount r)%Z) /\
-  length (uniq sum_hash 7 [1] [1] 9 false l) = 3%nat /\ length (uniq sum_hash 7 [1] [1] 9 true l) = 2%nat /\
-  zsum ucount (uniq sum_hash 7 [1] [1] 9 false l) = 7%Z /\
-  (forall r, In r l -> pos_rec r /\ consistent 1 r) /\
-  length (uniq sum_hash 2 [] [1] 9 false (demerge 1 (uniq sum_hash 7 [] [1] 9 false l))) = 2%nat.
+  let s5 := mkval 0 5 5 5 None in let s6 := mkval 0 6 6 6 None in let s7 := mkval 0 7 7 7 None in
+  let w := fun z => mkval 1 20 20 20 (Some z) in
+  let l := [mkrec [97; 99] 1 [(1, s5); (3, w 5%Z)] []; mkrec [97; 99] 3 [(1, s6)] [(1, [(5, 2%Z); (6, 1%Z)])];
+            mkrec [103] 1 [] []; mkrec [97; 99] 2 [(1, s5); (2, s7); (3, w 2%Z)] []] in
+  let dsw : dspec := fun s => if s =? 4 then (1, Some 3) else (s, None) in
+  typed [1] l /\ (forall r, In r l -> wf r) /\ pos_counts l /\
+  length (uniq sum_hash 7 [1] dflt [1] 9 false l) = 3%nat /\ length (uniq sum_hash 7 [1] dflt [1] 9 true l) = 2%nat /\
+  zsum ucount (uniq sum_hash 7 [1] dflt [1] 9 false l) = 7%Z /\
+  zsum (mtotal 4) (uniq sum_hash 7 [1] dsw [4] 9 false l) = 7%Z /\
+  length (uniq sum_hash 2 [] dflt [1] 9 false (demerge 1 (uniq sum_hash 7 [] dflt [1] 9 false l))) = 2%nat.
 Proof.
-  cbv zeta. split; [|split; [|split; [|split; [|split; [|split]]]]]; try (vm_compute; reflexivity).
+  cbv zeta. split; [|split; [|split; [|split; [|split; [|split; [|split]]]]]]; try (vm_compute; reflexivity).
+  - intros x r c Hx Hr [Hc|[]]. subst c. intros w0 v' Hw Hl Hp. cbn in Hx, Hr.
+    repeat (destruct Hx as [Hx|Hx]; [subst x|]); try destruct Hx;
+    repeat (destruct Hr as [Hr|Hr]; [subst r|]); try destruct Hr;
+    cbn in Hw, Hl; repeat (destruct Hw as [Hw|Hw]; [inversion Hw; subst w0|]); try destruct Hw;
+    try discriminate; inversion Hl; subst v'; try reflexivity; cbn in Hp; discriminate.
   - intros r H. cbn in H. unfold wf. repeat (destruct H as [H|H]; [subst r; cbn; repeat constructor; cbn; intuition discriminate|]). destruct H.
   - intros r H. cbn in H. repeat (destruct H as [H|H]; [subst r; cbn; discriminate|]). destruct H.
-  - intros r H. cbn in H. unfold pos_rec, pos_stats, consistent.
-    repeat (destruct H as [H|H]; [subst r; cbn; split; [split; [discriminate|]; intros k m Hin; repeat (destruct Hin as [Hin|Hin]; [inversion Hin; subst; intros vw Hvw; cbn in Hvw; repeat (destruct Hvw as [Hvw|Hvw]; [subst vw; cbn; discriminate|]); destruct Hvw|]); destruct Hin | intros m Hm; try discriminate; inversion Hm; subst; reflexivity]|]). destruct H.
 Qed.
 
 Print Assumptions C06_classes_exact.
+Print Assumptions C06_output_is_merged_class.
 Print Assumptions C06_one_per_key.
+Print Assumptions C06_one_per_key_refuted.
 Print Assumptions C06_keys_exact.
+Print Assumptions C06_keys_exact_refuted.
 Print Assumptions C06_count_is_sum.
 Print Assumptions C06_merged_maps.
+Print Assumptions C06_merged_maps_weighted.
 Print Assumptions C06_total_conserved.
+Print Assumptions C06_weight_conserved.
+Print Assumptions C06_class_weight_conserved.
+Print Assumptions C06_weight_of_raw_record.
+Print Assumptions C06_count_is_sum_nonpositive_refuted.
+Print Assumptions C06_output_counts_positive.
 Print Assumptions C06_total_conserved_nosingleton.
 Print Assumptions C06_nosingleton_drops_whole_classes.
 Print Assumptions C06_nosingleton_keys.
@@ -155,6 +263,7 @@ Print Assumptions C06_singleton_is_total_one.
 Print Assumptions C06_surviving_annotations.
 Print Assumptions C06_order_hash_chunks_independent.
 Print Assumptions C06_order_independent.
+Print Assumptions C06_disk_equals_memory.
 Print Assumptions C06_map_total_is_count.
 Print Assumptions C06_weights_positive.
 Print Assumptions C06_demerge_inverse.
